@@ -58,7 +58,7 @@ C13(e) ==
 
 Obl(p, e) ==
   CASE p = "C13" -> C13(e)
-    [] p = "C17" -> Completed(e) /\ e.out = 0
+    [] p = "C17" -> Completed(e) /\ e.out = 0 /\ \A i \in DOMAIN e.mut : e.mut[i].panic = FALSE   \* incl. the follow-up calls on a, b, r
     [] p = "C18" -> Completed(e) => (e.pure = TRUE /\ SameObj(e.cfg, e.a1, e.a0) /\ SameObj(e.cfg, e.b1, e.b0))
 
 Init == l = 1
